@@ -14,6 +14,9 @@ def fermi_finding_stands(chk):
     return chk.findings.match("C01", "levelA|fermi|mass-constant") is not None
 
 
+DEEP = [0]   # events of the deep-steering frontier search per nuclide (set in main)
+
+
 def run_levelB(chk, variant, names, n_iid, n_grid, n_pairs, port_fermi, timeout):
     exe = refbuild.ref_harness(variant, "c01_diff", ["c01_diff.cc"])
     spec = tempfile.NamedTemporaryFile("w", suffix=".spec", delete=False, dir=build.variant_dir(variant))
@@ -24,7 +27,7 @@ def run_levelB(chk, variant, names, n_iid, n_grid, n_pairs, port_fermi, timeout)
 
     def one(name):
         cmd = [exe, spec.name, str(chk.seed), str(n_iid), str(n_grid), str(n_pairs), "1" if port_fermi else "0", name]
-        rc, out, err = run(cmd, timeout=timeout, env=build.lib_env(variant))
+        rc, out, err = run(cmd, timeout=timeout, env=build.lib_env(variant, {"VERIF_DEEP_EVENTS": str(DEEP[0])}))
         return name, rc, out, err
 
     results = pmap(one, names, jobs=NCPU)
@@ -44,6 +47,7 @@ def main():
     n_iid = 100000 if quick else 2000000
     n_grid = 300 if quick else 5000
     n_pairs = 50000 if quick else 1000000
+    DEEP[0] = 150000 if quick else 30000000
     port_fermi = fermi_finding_stands(chk)
 
     # ---- Level A: building blocks, function by function
@@ -104,7 +108,9 @@ def main():
         "distinct_nontrivial": distinct,
         "rule": "one evaluation = one (nuclide, deviate tape) pair run through the Fortran reference and the port and compared "
                 "(draw count, species, momenta 1e-9, running-sum times); tapes: i.i.d., every one of the first K<=64 cells pinned "
-                "over a log-tail+quantile grid and at harvested branching thresholds +-1e-9, and random pairs of pinned cells; "
+                "over a log-tail+quantile grid and at harvested branching thresholds +-1e-9, random pairs of pinned cells, and a frontier search over "
+                "pinned cells guided by new reference-event signatures (harness/steer.h: each new signature becomes a node whose later cells are "
+                "steered by bisection over the thresholds with numeric refinement of every boundary - reaches rare branches of rare branches); "
                 "distinct = distinct reference branch signatures (species:keV sequences) summed over nuclides",
         "samples": samples,
         "per_nuclide": per,
